@@ -185,6 +185,17 @@ def r07_3(ck: Check) -> None:
                     ck.ok("R07.3", construct, "0..2^%d-1 in constructor and %d-byte field" % (8 * p[1], p[1]), where)
                 else:
                     ck.violated("R07.3", construct, "constructor allows up to %d, the field holds up to %d" % (v, 256 ** p[1] - 1), where)
+    # the five pairs confirmed on the pinned tree: a constructor that stops refusing what its codec cannot carry admits values without
+    # an encoding (a 31-byte id is written as 31 bytes and read back as 32, shifted into the next field)
+    seen_pairs = {o.construct for o in ck.obligations if o.rule == "R07.3"}
+    for cls_, arg_ in (("datatypes.OutputReference", "hash"), ("datatypes.OutputReference", "index"), ("signing.CoinbaseData", "height"),
+                       ("signing.SECP256k1Signature", "signature"), ("signing.SECP256k1PublicKey", "public_key")):
+        construct = "%s(%s): constructor range = codec range" % (cls_, arg_)
+        if construct not in seen_pairs and ("skepticoin." + cls_) in ex.codecs:
+            ck.violated("R07.3", construct, "the constructor no longer restricts `%s` to what the codec carries: a value outside it is encoded with "
+                        "another width (or not at all) than the reader consumes — it does not survive the round trip and shifts what follows"
+                        % arg_, "")
+            n += 1
     ck.expect_count("R07.3", "constructor/codec range pairs", n, 5)
     ck.note("CoinbaseData accepts a 256-byte payload that a u8 length cannot encode (a value without an encoding; unreachable through the "
             "validator's 200-byte limit) — cross-reference, not armed")
